@@ -33,8 +33,12 @@ type dcase struct {
 	PerCli   int    `json:"datagrams_per_client"`
 	Reconn   bool   `json:"close_and_reconnect"`
 	Overflow bool   `json:"overflow_phase"`
-	SlowRead bool   `json:"slow_reader,omitempty"` // one remote fills its connection's receive buffer (4 MiB) while the handler does not read
-	Seed     int64  `json:"seed"`
+	// PartRead: one remote builds a backlog of about 100 KB on its connection while the handler does not read, the handler
+	// then reads part of it, the remote sends about as much again, and only then the handler reads on: the connection's
+	// receive queue grows while it holds wrapped, partly consumed data. Everything must come out, in order and intact.
+	PartRead bool  `json:"part_read,omitempty"`
+	SlowRead bool  `json:"slow_reader,omitempty"` // one remote fills its connection's receive buffer (4 MiB) while the handler does not read
+	Seed     int64 `json:"seed"`
 }
 
 // datagram: [0] first byte (filter class), [1:3] client, [3:7] seq, [7:11] len, filler
@@ -212,7 +216,7 @@ func runCase(c *dcase, r *res.Result) (string, string) {
 	release := make(chan struct{})
 	var releaseOnce sync.Once
 	defer releaseOnce.Do(func() { close(release) })
-	if c.SlowRead {
+	if c.SlowRead || c.PartRead {
 		for _, cl := range clients {
 			if !cl.odd {
 				victim = cl.idx
@@ -220,6 +224,10 @@ func runCase(c *dcase, r *res.Result) (string, string) {
 			}
 		}
 	}
+	read60 := make(chan struct{})
+	release2 := make(chan struct{})
+	var release2Once sync.Once
+	defer release2Once.Do(func() { close(release2) })
 	// connection reader: isolation, order, integrity, gap-freeness (paced)
 	handle := func(conn net.Conn, closeAfter int) {
 		defer readers.Done()
@@ -246,9 +254,10 @@ func runCase(c *dcase, r *res.Result) (string, string) {
 			old.Close()
 			r.Count("closes_of_closed_connections", 1)
 		}
-		if c.SlowRead && cl.idx == victim {
-			<-release // slow reader: nothing is read until the remote has overfilled the receive buffer
+		if (c.SlowRead || c.PartRead) && cl.idx == victim {
+			<-release // slow reader: nothing is read until the remote has overfilled the receive buffer / built its backlog
 		}
+		strict := c.PartRead && cl.idx == victim && closeAfter == 0
 		buf := make([]byte, 9000)
 		var last uint32
 		reads := 0
@@ -304,7 +313,7 @@ func runCase(c *dcase, r *res.Result) (string, string) {
 				}
 				fmu.Unlock()
 			}
-			if complete && reads > 0 && seq != last+1 {
+			if (complete || strict) && reads > 0 && seq != last+1 {
 				violate("demux:gap", fmt.Sprintf("connection of %s delivered seq %d after %d although at most a window of datagrams was outstanding (datagram lost inside the listener)", ra, seq, last))
 				break
 			}
@@ -315,6 +324,10 @@ func runCase(c *dcase, r *res.Result) (string, string) {
 				atomic.AddInt64(&outstanding, -int64(n))
 			}
 			r.Count("datagrams_read", 1)
+			if strict && reads == 60 {
+				close(read60)
+				<-release2
+			}
 			if closeAfter > 0 && reads >= closeAfter {
 				break
 			}
@@ -447,6 +460,33 @@ func runCase(c *dcase, r *res.Result) (string, string) {
 		r.Count("slow_reader_phases", 1)
 		releaseOnce.Do(func() { close(release) })
 	}
+	if c.PartRead && victim >= 0 {
+		cl := clients[victim]
+		burst := func(n int) bool {
+			for i := 0; i < n; i++ {
+				cl.sent++
+				cl.conn.Write(mk(cl.idx, cl.sent, 1000, false))
+				r.Count("datagrams_sent", 1)
+				if i%32 == 31 && !readLoopIdle() {
+					return false
+				}
+			}
+			return readLoopIdle()
+		}
+		ok := burst(100)
+		releaseOnce.Do(func() { close(release) })
+		if ok {
+			select {
+			case <-read60:
+				if burst(90) {
+					r.Count("part_read_phases", 1)
+				}
+			case <-time.After(5 * time.Second):
+				// the handler did not get its 60 datagrams: the strict checks or the completeness check below say why
+			}
+		}
+		release2Once.Do(func() { close(release2) })
+	}
 	// senders
 	var sw sync.WaitGroup
 	for _, cl := range clients {
@@ -570,6 +610,7 @@ func genCase(rng *rand.Rand) *dcase {
 	c.Reconn = rng.Intn(3) == 0
 	c.Overflow = rng.Intn(3) == 0 && !c.Reconn && c.Filter != "skipfirst"
 	c.SlowRead = rng.Intn(6) == 0 && !c.Overflow && !c.Reconn
+	c.PartRead = !c.SlowRead && rng.Intn(5) == 0 && !c.Overflow && !c.Reconn && (c.Filter == "none" || c.Filter == "even")
 	if c.Backlog < c.Clients && !c.Overflow {
 		// small backlogs are only meaningful with the overflow phase; otherwise keep room for every remote
 		c.Backlog = 128
@@ -605,7 +646,7 @@ func main() {
 		}
 		r.Eval(1)
 		k, d := runCase(c, r)
-		r.DistinctKey(fmt.Sprintf("cl=%d mip=%v bl=%d f=%s b=%d p=%v rc=%v of=%v", c.Clients/4, c.MultiIP, c.Backlog, c.Filter, c.Batch, c.Paced, c.Reconn, c.Overflow) + fmt.Sprintf(" sr=%v", c.SlowRead))
+		r.DistinctKey(fmt.Sprintf("cl=%d mip=%v bl=%d f=%s b=%d p=%v rc=%v of=%v", c.Clients/4, c.MultiIP, c.Backlog, c.Filter, c.Batch, c.Paced, c.Reconn, c.Overflow) + fmt.Sprintf(" sr=%v pr=%v", c.SlowRead, c.PartRead))
 		if k == "" && d != "" {
 			r.Inconc(d)
 			continue
